@@ -25,6 +25,7 @@ import (
 	"github.com/cloudflare/pat-go/tokens/type2"
 	"github.com/cloudflare/pat-go/tokens/type3"
 	"github.com/cloudflare/pat-go/tokens/type5"
+	"github.com/cloudflare/pat-go/util"
 
 	"verifharness/internal/core"
 	"verifharness/internal/ref"
@@ -37,7 +38,7 @@ func init() {
 		Rule: "built with -race. For each shared-object kind (type-1, type-2, type-3, type-5 issuer, generic batch issuer, *ecdsa.PrivateKey/PublicKey, ed25519.PrivateKey) a FRESH object (fresh VOPRF key object, so lazily initialised state is untouched) is used by G goroutines released from a barrier, each running a seeded mix of Evaluate/EvaluateBatch/Verify/TokenKeyID/TokenKey/Sign/Verify/Blind* with its own arguments (the ECDSA kinds use keys on two to four different curves at the same moment, the burst kind signs 150 digests back to back per goroutine on three curves); repeated R times per kind, kinds rotated over worker processes so that package-level sync.Once state is first touched concurrently. " +
 			"Oracle: zero race-detector reports (GORACE log, de-duplicated by the outermost pat-go frames of both stacks) and every call's result satisfies its sequential oracle (responses finalize under the caller's own request state to a token valid under the reference verifier, Verify verdicts as expected for valid and bit-flipped tokens, key ids equal the value computed on a second object, signatures verify under the standard library, blinded keys equal the sequential result). " +
 			"distinct_nontrivial = fresh objects on which at least two goroutines were observed inside pat-go at the same time (atomic in-flight counter)",
-		Floors:      []string{"unsupported_curve_errors_independent", "objects_with_overlap", "evaluate_results_ok", "verify_results_ok", "keyid_results_ok", "sign_results_ok", "blind_results_ok", "batch_results_ok", "kind_type1", "kind_type2", "kind_type3", "kind_type5", "kind_batch", "kind_ecdsa", "kind_ecdsa-burst", "kind_ed25519", "tampered_twin_refused", "wide_repetitions_96_goroutines"},
+		Floors:      []string{"token_key_codec_results_ok", "unsupported_curve_errors_independent", "objects_with_overlap", "evaluate_results_ok", "verify_results_ok", "keyid_results_ok", "sign_results_ok", "blind_results_ok", "batch_results_ok", "kind_type1", "kind_type2", "kind_type3", "kind_type5", "kind_batch", "kind_ecdsa", "kind_ecdsa-burst", "kind_ed25519", "tampered_twin_refused", "wide_repetitions_96_goroutines"},
 		Assumptions: []string{"the race detector reports conflicting accesses it observes; schedules that did not run are not judged", "each call has its own per-call arguments, as the statement requires"},
 		Race:        true,
 		Run:         runC17,
@@ -382,6 +383,26 @@ func c17Type2(run *c17Run, G int, seeds [][]byte, key interface{}) {
 			run.fail(err.Error())
 			return
 		}
+		// the package-level token-key codecs, with this goroutine's OWN small key (moduli of 64..448 bits: encodings short
+		// enough to fit whatever scratch space a shared template might have), both forms, checked again at the end
+		small := new(big.Int).SetBytes(r.Bytes(8 + (gi*4)%49))
+		small.SetBit(small, 0, 1)
+		small.SetBit(small, small.BitLen()|7, 1)
+		smallKey := &rsa.PublicKey{N: small, E: []int{3, 65537}[gi%2]}
+		run.enter()
+		encP, errP := util.MarshalTokenKey(smallKey, false)
+		encL, errL := util.MarshalTokenKey(smallKey, true)
+		run.leave()
+		wantP, wantL := ref.SPKIRSAPSS(small, smallKey.E), ref.SPKIRSAEncryption(small, smallKey.E)
+		checkSmall := func(when string) {
+			if errP != nil || errL != nil || !bytes.Equal(encP, wantP) || !bytes.Equal(encL, wantL) {
+				run.fail("MarshalTokenKey of a goroutine's own small key differs from the reference encoding " + when)
+			} else {
+				c.Class("token_key_codec_results_ok")
+			}
+		}
+		checkSmall("right after the call")
+		defer checkSmall("at the end of the goroutine")
 		for k := 0; k < 3; k++ {
 			switch (k + gi) % 3 {
 			case 0:
